@@ -1,6 +1,7 @@
 (* C15/Props.v -- pinned property theorems; nothing but statements closed by `exact`. *)
 From NV.Common Require Import Base.
-From NV.C15 Require Import Types Model Proofs Run Inst.
+From NV.C15 Require Import Types Model Proofs Run Inst Text.
+From NV.C04 Require Types Model.
 From NV.gen Require Import Gen_C15.
 Open Scope N_scope.
 
@@ -71,8 +72,68 @@ Theorem C15_stack_bound_unguarded_refuted :
     parse_bp lbp rbp pbp maxd false slimit f 0 0 ts = Overflow.
 Proof. exact unguarded_unbounded. Qed.
 
+(* Determinism: the outcome is a function of the token list (independent of the fuel given to the
+   model, once it suffices) *)
+Theorem C15_parse_deterministic :
+  forall which slimit f1 f2 d m ts r1 r2,
+    parse_bp (lbp_of which) (rbp_of which) (pbp_of which) (maxd_of which) (guard_of which) slimit f1 d m ts = r1 ->
+    parse_bp (lbp_of which) (rbp_of which) (pbp_of which) (maxd_of which) (guard_of which) slimit f2 d m ts = r2 ->
+    r1 <> Fuel -> r2 <> Fuel -> r1 = r2.
+Proof. intros which slimit. exact (parse_deterministic _ _ _ _ _ _). Qed.
+
+(* Positions: the unconsumed rest of a successful parse, and the token an error points to, lie
+   within the input *)
+Theorem C15_position_within_input :
+  forall which slimit f d m ts e rest,
+    parse_bp (lbp_of which) (rbp_of which) (pbp_of which) (maxd_of which) (guard_of which) slimit f d m ts = Ok e rest \/
+    (exists k, parse_bp (lbp_of which) (rbp_of which) (pbp_of which) (maxd_of which) (guard_of which) slimit f d m ts = Err k rest) ->
+    (length rest <= length ts)%nat.
+Proof. intros which slimit. exact (position_within_input _ _ _ _ _ _). Qed.
+
+(* Text = direct call, relational WHERE fragment: running the TEXT of a condition tree (printed with
+   the parentheses the documented precedence requires) through the parser, expr_to_condition and
+   exec_select gives what the direct engine call select_columnar gives on the tree's condition.
+   (C04_every_strategy_exact then says: exactly the rows satisfying it.) *)
+Theorem C15_where_text_equals_direct_call :
+  forall which val_of norm st slimit e c,
+    wfe gen_nops e = true -> e2c val_of e = Some c ->
+    1 + doc_depth e <= slimit -> (guard_of which = true -> 1 + doc_depth e <= maxd_of which) ->
+    exists f0, forall f, (f0 <= f)%nat ->
+      text_select val_of (lbp_of which) (rbp_of which) (pbp_of which) (maxd_of which) (guard_of which) slimit norm
+                  st f (doc_print e) = Some (NV.C04.Model.select_columnar norm st c).
+Proof.
+  intros which val_of norm st slimit e c Hw Hc Hs Hg.
+  destruct (C15_roundtrip which e slimit Hw Hs Hg) as [f0 H]. exists f0. intros f Hf.
+  unfold text_select. rewrite (H f Hf), Hc. reflexivity.
+Qed.
+Example C15_where_text_nonvacuous :
+  let e := Bin 0 (Bin 2 (Atom 100) (Atom 1)) (Bin OP_AND (Bin 6 (Atom 101) (Atom 2)) (Bin 3 (Atom 100) (Atom 3))) in
+  wfe gen_nops e = true /\
+  e2c (fun n => NV.C04.Types.VInt (Z.of_N n)) e =
+    Some (NV.C04.Types.COr (NV.C04.Types.CCmp 0 0 (NV.C04.Types.VInt 1))
+            (NV.C04.Types.CAnd (NV.C04.Types.CCmp 4 1 (NV.C04.Types.VInt 2)) (NV.C04.Types.CCmp 1 0 (NV.C04.Types.VInt 3)))).
+Proof. split; vm_compute; reflexivity. Qed.
+
+(* Known finding legacy-execute-parentheses: the condition parser of the LEGACY entry point
+   QueryRouter::execute has no parentheses: `( a )` is one garbled comparison, where both real Pratt
+   parsers give the leaf a.  (Its AND/OR grouping was repaired in 03a8e25d: on parenthesis-free text
+   it now groups like the documented precedence, e.g. a OR b AND c.) *)
+Theorem C15_legacy_execute_refuted :
+  exists ts e, legacy_cond 8 ts = Some e /\ model_parse 1 (map ltok_tok ts) <> Ok e [].
+Proof.
+  exists [LLP; LLeaf 1; LRP], (Atom GARBLED). split; [vm_compute; reflexivity|vm_compute; discriminate].
+Qed.
+Example C15_legacy_execute_and_or_agree :
+  legacy_cond 8 [LLeaf 1; LOr; LLeaf 2; LAnd; LLeaf 3] = Some (Bin 0 (Atom 1) (Bin OP_AND (Atom 2) (Atom 3))) /\
+  model_parse 1 (map ltok_tok [LLeaf 1; LOr; LLeaf 2; LAnd; LLeaf 3]) = Ok (Bin 0 (Atom 1) (Bin OP_AND (Atom 2) (Atom 3))) [].
+Proof. split; vm_compute; reflexivity. Qed.
+
 Print Assumptions C15_pratt_roundtrip_any_table.
 Print Assumptions C15_roundtrip.
 Print Assumptions C15_two_parsers_agree.
 Print Assumptions C15_stack_bound.
 Print Assumptions C15_stack_bound_unguarded_refuted.
+Print Assumptions C15_legacy_execute_refuted.
+Print Assumptions C15_parse_deterministic.
+Print Assumptions C15_position_within_input.
+Print Assumptions C15_where_text_equals_direct_call.
